@@ -139,7 +139,7 @@ def abi_check(chk, lean_ok):
             if model.get(name) != lay:
                 path = chk.save_replay("C15-layout-%s.txt" % name, "struct %s: C compiler sees %s, model layout of the Rust definition is %s\n" % (name, lay, model.get(name)))
                 chk.violations.append({"replay": path, "signature": "layout-" + name, "why": "layout mismatch for " + name})
-        expect = {"error": "-1", "no_update": "0", "installed": "1", "had_error": "2", "bad_patch": "3", "uninit_path_null": "1",
+        expect = {"error": "-1", "no_update": "0", "installed": "1", "had_error": "2", "bad_patch": "3", "uninit_path_null": "1", "refused_inits": "8",
                   "init": "1", "second_init": "0", "next": "1", "current": "0", "good_paths": iters, "error_results": iters,
                   "current_after_start": "1", "check": "0", "status": "-1"}
         for k, v in expect.items():
